@@ -23,6 +23,13 @@ structure Sig where
   maxOut : Nat
   deprecated : Bool
   attrs : List String
+  /-- per formal input: the element types (ONNX dtype codes) the type constraint admits; `[]` = not a
+      tensor type constraint / unconstrained -/
+  inTypes : List (List Nat) := []
+  /-- per formal input: id of its type variable (`T`, `T1`, …); `0` = a fixed type -/
+  inVars : List Nat := []
+  /-- the last formal input is variadic (homogeneous): it repeats -/
+  variadic : Bool := false
   deriving Repr, DecidableEq, Inhabited
 
 abbrev Schemas := List (String × List Sig)
@@ -84,7 +91,109 @@ def opsetLegal (S : Schemas) (m : Model) : Bool :=
     allNodes (nodeOK S v (domainsOf m.imports) m.funcs) m.graph
       && m.funcs.all (funcLegal S v m.funcs)
 
+/-! ## element types of inputs against the type constraints of the signature in force -/
+
+def allowedAt (s : Sig) (k : Nat) : List Nat :=
+  match s.inTypes[k]? with
+  | some l => l
+  | none => if s.variadic then s.inTypes.getLast?.getD [] else []
+
+def varAt (s : Sig) (k : Nat) : Nat :=
+  match s.inVars[k]? with
+  | some v => v
+  | none => if s.variadic then s.inVars.getLast?.getD 0 else 0
+
+/-- declared element type of a value in the visible annotations -/
+def dtypeOf (vis : List (String × Annot)) (x : String) : Option Nat :=
+  match lookup x vis with
+  | none => none
+  | some a => a.dtype
+
+/-- (type variable, declared dtype) of the annotated inputs, and the per-input membership test -/
+def inputFacts (s : Sig) (vis : List (String × Annot)) : List String → Nat → List (Nat × Nat)
+  | [], _ => []
+  | x :: rest, k =>
+    match (if x == "" then none else dtypeOf vis x) with
+    | none => inputFacts s vis rest (k + 1)
+    | some d => (k, d) :: inputFacts s vis rest (k + 1)
+
+def factOK (s : Sig) (f : Nat × Nat) : Bool :=
+  (allowedAt s f.1).isEmpty || (allowedAt s f.1).contains f.2
+
+/-- two annotated inputs bound to one type variable have one element type -/
+def pairOK (s : Sig) (f g : Nat × Nat) : Bool :=
+  varAt s f.1 == 0 || varAt s f.1 != varAt s g.1 || f.2 == g.2
+
+def pairsOK (s : Sig) : List (Nat × Nat) → Bool
+  | [] => true
+  | f :: rest => rest.all (pairOK s f) && pairsOK s rest
+
+def sigTyped (s : Sig) (vis : List (String × Annot)) (n : Node) : Bool :=
+  let facts := inputFacts s vis n.ins 0
+  facts.all (factOK s) && pairsOK s facts
+
+/-- the declared input element types of a default-domain node satisfy the signature in force at `v` -/
+def nodeTypedB (S : Schemas) (v : Nat) (vis : List (String × Annot)) (n : Node) : Bool :=
+  if n.domain != "" then true
+  else match lookupOp S n.op with
+    | none => true            -- existence is `nodeLegalB`'s subject
+    | some sigs =>
+      match sigAt sigs v with
+      | none => true
+      | some s => sigTyped s vis n
+
+def typesLegal (S : Schemas) (m : Model) : Bool :=
+  match importVersion "" m.imports with
+  | none => false
+  | some v =>
+    allNodesV (nodeTypedB S v) [] m.graph &&
+    m.funcs.all (fun f =>
+      match importVersion "" f.imports with
+      | none => false
+      | some fv => allNodesV (nodeTypedB S fv) [] f.asGraph)
+
 /-! diagnostics for the driver (no theorem depends on them) -/
+
+mutual
+def collectVG (f : List (String × Annot) → Node → Option String) (outer : List (String × Annot)) :
+    Graph → List String
+  | .mk _ _ ns _ vi => collectVL f (vi ++ outer) ns
+def collectVL (f : List (String × Annot) → Node → Option String) (vis : List (String × Annot)) :
+    List Node → List String
+  | [] => []
+  | n :: rest => collectVN f vis n ++ collectVL f vis rest
+def collectVN (f : List (String × Annot) → Node → Option String) (vis : List (String × Annot)) :
+    Node → List String
+  | .mk d o i u a bs =>
+    (match f vis (.mk d o i u a bs) with | none => [] | some s => [s]) ++ collectVB f vis bs
+def collectVB (f : List (String × Annot) → Node → Option String) (vis : List (String × Annot)) :
+    List Graph → List String
+  | [] => []
+  | b :: bs => collectVG f vis b ++ collectVB f vis bs
+end
+
+def whyNotTyped (S : Schemas) (v : Nat) (wher : String) (vis : List (String × Annot)) (n : Node) :
+    Option String :=
+  if nodeTypedB S v vis n then none
+  else match lookupOp S n.op with
+    | none => none
+    | some sigs => match sigAt sigs v with
+      | none => none
+      | some s =>
+        let facts := inputFacts s vis n.ins 0
+        match facts.find? (fun f => !factOK s f) with
+        | some f => some s!"{wher}||{n.op}|input-type input {f.1} has dtype {f.2}, not admitted by the schema since {s.since} opset={v}"
+        | none => some s!"{wher}||{n.op}|type-variable inputs {facts} bound to one type variable differ (schema since {s.since}) opset={v}"
+
+def explainTypes (S : Schemas) (m : Model) : List String :=
+  match importVersion "" m.imports with
+  | none => []
+  | some v =>
+    collectVG (whyNotTyped S v "main") [] m.graph ++
+    m.funcs.flatMap (fun f =>
+      match importVersion "" f.imports with
+      | none => []
+      | some fv => collectVG (whyNotTyped S fv s!"fn {f.name}") [] f.asGraph)
 
 mutual
 def collectG (f : Node → Option String) : Graph → List String
